@@ -32,6 +32,8 @@ From Coq Require Import List ZArith.
 Import ListNotations.
 From KDB Require Import PropAbs PropAbsProofs.
 From KDB Require Util PropDefs PropFlags PropLink PropCheck PropSim PropGrow PropGrowMore PropMove PropMixed.
+From KDB Require TablesDefs Tables PropAbsAct.
+From KDB.generated Require OpsTable.
 
 (* Inv s [] says: every node of every binding is clean, every cached result is the denotation of its subtree, every
    bound property equals the denotation of its expression, every leaf is subscribed to its input. *)
@@ -233,3 +235,53 @@ Example C02_mixed_example :
       (filter (fun e => match e with PropDefs.EvVal _ => true | _ => false end) (PropDefs.w_trace (PropDefs.run fn true 8 ops)))
   = [Some 13%Z; Some 4%Z].
 Proof. split; [vm_compute; repeat split; reflexivity|vm_compute; reflexivity]. Qed.
+
+(* 7. "every expression shape - nested operators and functions": an expression WRITTEN with the library's operators (`a + b`, `-a`, ...)
+   must become an operator node whose operands ARE the properties / sub-expressions / constants written, in source order - a property
+   operand read once at construction time would be a constant for ever (seeded change C02-5).  The table of all operator overloads is
+   regenerated from node_operators.h on every run (translate/opstable.py); every entry passes the wiring check of coq/Tables.v, hence
+   (Tables.entry_ok_sound, C14_binary_and_unary_wiring) for every interpretation of the operators the node computes OP over its operands
+   as given.  The correspondence runs nodes built by these very overloads (function ids >= 100 of the scripts) against the model. *)
+Theorem C02_operator_expressions_wire_their_operands :
+  forallb KDB.Tables.entry_ok KDB.generated.OpsTable.ops_table = true /\ KDB.Tables.table_complete KDB.generated.OpsTable.ops_table = true.
+Proof. split; vm_compute; reflexivity. Qed.
+Print Assumptions C02_operator_expressions_wire_their_operands.
+
+(* 8. ACTING OBSERVERS on the abstract layer (coq/PropAbsAct.v): subscribers of valueChanged may also be observers that assign the
+   announced value to another property from inside the notification (a complete nested assignment while the outer emission still has
+   subscribers to serve).  For every network, every placement of such observers and every delivery order: whenever an assignment - or a
+   whole sequence of assignments - returns normally, every bound property equals its expression over the current values.  (The
+   refinement of the executable model to this layer is proved for observers that do not act, PropSim.v; with acting observers the
+   executable model is tied to it by PropCheck.check_c02 on every reached world.) *)
+Theorem C02_consistent_with_acting_observers_abstract :
+  forall F1 F2 F3 (order' : nat -> list PropAbsAct.sub) fuel s p v,
+    tr s p = None -> oof s = false -> Inv F1 F2 F3 (PropAbsAct.lorder order') s [] ->
+    oof (PropAbsAct.set' F1 F2 F3 order' fuel s p v) = false ->
+    Inv F1 F2 F3 (PropAbsAct.lorder order') (PropAbsAct.set' F1 F2 F3 order' fuel s p v) [].
+Proof. exact PropAbsAct.set'_consistent. Qed.
+Print Assumptions C02_consistent_with_acting_observers_abstract.
+
+Theorem C02_histories_with_acting_observers_abstract :
+  forall F1 F2 F3 (order' : nat -> list PropAbsAct.sub) fuel ws s,
+    (forall p v, In (p, v) ws -> tr s p = None) -> oof s = false -> Inv F1 F2 F3 (PropAbsAct.lorder order') s [] ->
+    oof (PropAbsAct.sets' F1 F2 F3 order' fuel s ws) = false ->
+    Inv F1 F2 F3 (PropAbsAct.lorder order') (PropAbsAct.sets' F1 F2 F3 order' fuel s ws) [].
+Proof. exact PropAbsAct.sets'_consistent. Qed.
+Print Assumptions C02_histories_with_acting_observers_abstract.
+
+(* non-vacuity: b = x + y; the subscribers of x are b's leaf and then an observer doing y.set(v); x := 5 re-evaluates b to 6, the observer
+   then makes y 5, whose notification re-evaluates b to 10 - the initial state satisfies the invariant, the assignment returns normally *)
+Example C02_acting_observer_example :
+  let F2x := fun (f : nat) (a b : Z) => (a + b)%Z in
+  let ordx := fun p : nat => match p with 0 => [PropAbsAct.SLeaf 2 0; PropAbsAct.SAct 1] | 1 => [PropAbsAct.SLeaf 2 1] | _ => [] end in
+  let s0 := {| env := fun p => match p with 2 => 2%Z | _ => 1%Z end;
+               tr := fun q => match q with 2 => Some (Bin 0 false 2%Z (Leaf 0 0 false) (Leaf 1 1 false)) | _ => None end; oof := false |} in
+  Inv (fun _ a => a) F2x (fun _ a b c => (a + b + c)%Z) (PropAbsAct.lorder ordx) s0 [] /\
+  let s1 := PropAbsAct.set' (fun _ a => a) F2x (fun _ a b c => (a + b + c)%Z) ordx 5 s0 0 5%Z in
+  oof s1 = false /\ env s1 1 = 5%Z /\ env s1 2 = 10%Z.
+Proof.
+  split; [|vm_compute; repeat split; reflexivity].
+  intros q t H. destruct q as [|[|[|q]]]; cbn in H; try discriminate. inversion H; subst t; clear H.
+  cbn. repeat split; auto.
+  intros p lid [E|[E|[]]]; inversion E; subst; cbn; auto.
+Qed.
